@@ -65,3 +65,22 @@ package boltz
 //@   modifies *
 //@   ensures[pending-error-does-nothing] old(holderFailed[ctx.ErrHolder]) ==> dbSame()
 //@   ensures[target-no-longer-lists-the-row] !holderFailed[ctx.ErrHolder] && str_len(old(fkNew(index, ctx))) > 0 ==> !fkListed(fkB(index, ctxTx[ctx.Ctx], old(fkNew(index, ctx))), str(ctx.RowId))
+
+// ---- delete of a referenced entity: restrict or cascade ----
+// the predicate that selects the referrers is built as the node `symbol in [id]` with the id as a string value and
+// then typed; it is never assembled as filter text (an id with quotes, backslashes or keywords is just a value)
+//@ func (*fkDeleteCascadeConstraint).ProcessBeforeDelete
+//@   props C04
+//@   nosafety
+//@   modifies *, ocCnt, ocFn, ocRecv, cxN, cxWho, cxPhase, cxCtx, cxPersist
+//@   callpre[predicate-is-symbol-in-id-as-a-value] PostProcess@1: istype(*arg1, *ast.InArrayExprNode) && istype(as(*arg1, *ast.InArrayExprNode).left, *ast.UntypedSymbolNode) && as(as(*arg1, *ast.InArrayExprNode).left, *ast.UntypedSymbolNode).symbol == esName(index.symbol) && istype(as(*arg1, *ast.InArrayExprNode).right, *ast.StringArrayNode) && len(as(as(*arg1, *ast.InArrayExprNode).right, *ast.StringArrayNode).values) == 1 && istype(as(as(*arg1, *ast.InArrayExprNode).right, *ast.StringArrayNode).values[0], *ast.StringConstNode) && as(as(as(*arg1, *ast.InArrayExprNode).right, *ast.StringArrayNode).values[0], *ast.StringConstNode).value == str(ctx.RowId)
+//@   callpre[typed-against-the-referencing-store] PostProcess@1: ref(arg0) == symStoreOf(index.symbol)
+//@   callpre[cascade-deletes-through-the-referencing-store-in-this-context] DeleteById@1: ref(recv) == symStoreOf(index.symbol) && arg0 == ctx.Ctx
+//@   ensures[pending-error-does-nothing] old(holderFailed[ctx.ErrHolder]) ==> dbSame()
+//@   waive pre#Current the id cursor's position after a delete under it is bbolt's concern (the code re-seeks to the current key); not part of this claim
+//@   waive pre#Seek the id cursor's position after a delete under it is bbolt's concern; not part of this claim
+//@   invariant 1: true
+// a constraint's configuration is fixed when it is wired
+//@ immutable H.boltz.fkDeleteCascadeConstraint.symbol.typ
+//@ immutable H.boltz.fkDeleteCascadeConstraint.symbol.val
+//@ immutable H.boltz.fkDeleteCascadeConstraint.cascadeType
